@@ -405,7 +405,10 @@ func crashViolation(out string) *Violation {
 	return &Violation{Class: "host-panic", Sig: fmt.Sprintf("uncontained %q at=%s", first, frame), Detail: tail(body, 6000)}
 }
 
-// raceReports extracts race detector reports with a go-plugin frame.
+// raceReports extracts race detector reports in which at least one of the two
+// racing accesses is performed by go-plugin code itself (top frame of the
+// access stack); reports confined to the harness, grpc-go or yamux are not
+// counted.
 func raceReports(stderr string) []Violation {
 	var out []Violation
 	parts := strings.Split(stderr, "WARNING: DATA RACE")
@@ -413,32 +416,38 @@ func raceReports(stderr string) []Violation {
 		if e := strings.Index(p, "=================="); e >= 0 {
 			p = p[:e]
 		}
-		if !strings.Contains(p, "simworld/goplugin") {
-			continue
-		}
-		// signature: the two go-plugin functions nearest the racing accesses
-		var frames []string
-		for _, l := range strings.Split(p, "\n") {
-			l = strings.TrimSpace(l)
-			if strings.HasPrefix(l, "simworld/goplugin") && !strings.Contains(l, ".func") {
-				f := l
-				if k := strings.Index(f, "("); k > 0 {
-					f = f[:k]
-				}
-				f = strings.TrimPrefix(f, "simworld/goplugin")
-				dup := false
-				for _, x := range frames {
-					if x == f {
-						dup = true
+		lines := strings.Split(p, "\n")
+		var tops []string
+		for i, l := range lines {
+			t := strings.TrimSpace(l)
+			if strings.HasPrefix(t, "Read at ") || strings.HasPrefix(t, "Write at ") || strings.HasPrefix(t, "Previous read at ") || strings.HasPrefix(t, "Previous write at ") || strings.HasPrefix(t, "Atomic") || strings.HasPrefix(t, "Previous atomic") {
+				// the access's own function: first frame that is not a runtime helper (map operations etc.)
+				for j := i + 1; j < len(lines); j += 2 {
+					f := strings.TrimSpace(lines[j])
+					if f == "" {
+						break
 					}
-				}
-				if !dup {
-					frames = append(frames, f)
+					if strings.HasPrefix(f, "runtime.") || strings.HasPrefix(f, "internal/") || strings.HasPrefix(f, "sync.") || strings.HasPrefix(f, "sync/") {
+						continue
+					}
+					tops = append(tops, f)
+					break
 				}
 			}
-			if len(frames) == 2 {
-				break
+		}
+		var frames []string
+		inPlugin := false
+		for _, f := range tops {
+			if k := strings.LastIndex(f, "("); k > 0 {
+				f = f[:k]
 			}
+			if strings.HasPrefix(f, "simworld/goplugin") {
+				inPlugin = true
+			}
+			frames = append(frames, strings.TrimPrefix(f, "simworld/goplugin"))
+		}
+		if !inPlugin {
+			continue
 		}
 		sort.Strings(frames)
 		out = append(out, Violation{Class: "data-race", Sig: strings.Join(frames, " vs "), Detail: tail(p, 5000)})
